@@ -799,6 +799,25 @@ func (tt *TermTable) Cmp(op Op, a, b *Term) *Term {
 			return tt.Eq(a, b)
 		}
 	}
+	// zero-extended value against a constant beyond its range
+	if (op == OUlt || op == OUle) && a.op == OZext && b.IsConst() && b.val > mask(int(a.args[0].w)) {
+		return tt.True
+	}
+	if (op == OUlt || op == OUle) && b.op == OZext && a.IsConst() && a.val > mask(int(b.args[0].w)) {
+		return tt.False
+	}
+	if (op == OSlt || op == OSle) && a.op == OZext && a.w > a.args[0].w && b.IsConst() && sext64(b.val, w) > int64(mask(int(a.args[0].w))) {
+		return tt.True
+	}
+	if (op == OSlt || op == OSle) && b.op == OZext && b.w > b.args[0].w && a.IsConst() && sext64(a.val, w) > int64(mask(int(b.args[0].w))) {
+		return tt.False
+	}
+	if (op == OSlt || op == OSle) && b.op == OZext && b.w > b.args[0].w && a.IsConst() && sext64(a.val, w) < 0 {
+		return tt.True
+	}
+	if (op == OSlt || op == OSle) && a.op == OZext && a.w > a.args[0].w && b.IsConst() && sext64(b.val, w) < 0 {
+		return tt.False
+	}
 	// comparisons of zero-extended values against constants: narrow
 	if a.op == OZext && b.IsConst() || b.op == OZext && a.IsConst() {
 		signedOK := true
